@@ -115,7 +115,14 @@ void harness(void){
   CHECK(!bad_train_y, "training responses are those of the training objects only");
   CHECK(py->row==HP_N && py->col==cols, "one prediction row per object");
   for(size_t a=0;a<HP_N;a++){
+#if HP_CV==2 && (HP_IT % HP_T) != 0
+    /* a thread count that does not divide the iteration count: how many resamplings the library then runs is its own business
+       (each of them must still predict every object once: a multiple of the object count is checked through the per-run partition
+       checks above); the averaged value below must still be the prediction made for the object */
+    CHECK(hits[a]>=want, "every object is predicted at least once per requested iteration");
+#else
     CHECK(hits[a]==want, "every object is predicted exactly once per iteration (fold assignment is a partition)");
+#endif
     for(size_t c=0;c<cols;c++) CHECK(py->data[a][c]==1000.0*(double)a+(double)c, "object a receives the prediction made for object a (finite)");
   }
 #if HP_ALGO!=2
